@@ -99,6 +99,10 @@ func buildC20(e *engine, p *rt.Package) {
 					res.Skipped = "RPC without an explicit path"
 					return func(t *rapid.T) {}
 				}
+				if why := headerHazard(e, info, res); why != "" {
+					res.Skipped = why
+					return func(t *rapid.T) {}
+				}
 				if srv == nil {
 					srv = newServer(p, false)
 					mocks := map[string]rt.Handler{}
